@@ -16,5 +16,5 @@ for ob in rep.obligations:
         if '-p' in sys.argv:
             for t in ob.pc:
                 print('  PC', str(t)[:300].replace('\n', ' '))
-            print('  CLAIM', str(ob.claim)[:1000])
+            print('  CLAIM', str(ob.claim)[:6000])
         n += 1
